@@ -282,6 +282,10 @@ pub fn run(ctx: &Ctx) -> Report {
                                 r.count("released", 1);
                             }
                             Out::Err => {
+                                // whatever the reason for the refusal: nothing but the last n bytes may have been touched
+                                if out_msg.len() != msg.len() || out_msg[..len - n] != msg[..len - n] {
+                                    r.violation(&key("body_modified_on_error"), "a failing sign_mut call changed message bytes outside the last n", replay().with("returned_message", J::hexa(&out_msg)));
+                                }
                                 if script == Cb::Accept {
                                     r.violation(&key("refused_valid_request"), "sign_mut failed for a message with a zero trailer on a live key", replay());
                                 }
@@ -295,6 +299,28 @@ pub fn run(ctx: &Ctx) -> Report {
                         if r.samples.len() < 4 && case_no % 13 == 1 {
                             r.sample(replay().with("result", J::s(&rec.result.describe())).with("returned_trailer", J::hex(&out_msg[len.saturating_sub(n)..])).with("hash_iterations", J::Int(iters.unwrap_or(0) as i128)));
                         }
+                    }
+                }
+                // a refusing storage layer with the shortest valid buffers (total length n+1 .. n+3):
+                // the failure path must not touch, or index, anything in front of the trailer
+                if !miri {
+                    for extra in 1..=3usize {
+                        let blob = hss::make_blob(0, &lv, &seed);
+                        let mut m = rng.bytes(extra);
+                        m.extend(std::iter::repeat(0u8).take(n));
+                        let orig = m.clone();
+                        let (rec, _) = libcall::sign_mut(alg, &blob, &mut m, Cb::Refuse);
+                        r.eval();
+                        match &rec.result {
+                            Out::Panic(p) => r.violation(&format!("C15:{cfgname}:panic:{}:{}", p.site(), alg.name()), &format!("sign_mut with a refusing callback and a {}-byte buffer panicked: {} at {}", extra + n, p.message, p.site()), J::obj().with("hash", J::s(alg.name())).with("message", J::hex(&orig))),
+                            Out::Ok(_) => r.violation(&format!("C15:{cfgname}:released_after_refusal:{}:w={wv}", alg.name()), "signature returned although the update callback refused", J::obj().with("hash", J::s(alg.name())).with("message", J::hex(&orig))),
+                            Out::Err => {
+                                if m[..extra] != orig[..extra] {
+                                    r.violation(&format!("C15:{cfgname}:body_modified_on_error:{}:w={wv}", alg.name()), "a failing sign_mut call changed message bytes outside the last n", J::obj().with("hash", J::s(alg.name())).with("message", J::hex(&orig)).with("returned_message", J::hex(&m)));
+                                }
+                            }
+                        }
+                        r.count("refused_short_buffers", 1);
                     }
                 }
                 // refusals: too short, non-zero trailer
